@@ -10,9 +10,10 @@ import Verif.Driver.GainLoss
 import Verif.Driver.TreeBuild
 import Verif.Driver.MSA
 import Verif.Driver.Cell
+import Verif.Driver.Line
 open Verif.Driver
 
-def handlers : List (List (List String) → Option String) := [handleAlign, handleSC, handleCluster, handleTree, handleHeap, handleCache, handleWL, handleCog, handleGL, handleTB, handleMSA, handleCell]
+def handlers : List (List (List String) → Option String) := [handleAlign, handleSC, handleCluster, handleTree, handleHeap, handleCache, handleWL, handleCog, handleGL, handleTB, handleMSA, handleCell, handleLine]
 
 def dispatch (line : String) : String :=
   let fs := fields line
